@@ -98,8 +98,12 @@ Variable dv : nat -> Divider.
 Variable buf : N -> bool.
 Notation prog := (prog buf).
 
-Definition cfg_of (s : st) (g : G) (unc usf : list N) (ins : list (N * Input)) : cfgT :=
-  ((conc dv s unc usf ins, g, ncalls s), stack buf (pcs s)).
+(* dsc.tactic is the model's tactic up to entries that are zero or absent (tg: GenTiePrio2Calc.deq); after a divider
+   error it is whatever the divider left (the model resets it), and nothing reads it any more *)
+Definition sg (s : st) (tg : dist) : st := with_tac s tg (pcs s).
+Definition cfg_of (s : st) (g : G) (tg : dist) (unc usf : list N) (ins : list (N * Input)) : cfgT :=
+  ((conc dv (sg s tg) unc usf ins, g, ncalls s), stack buf (pcs s)).
+Definition trel (c : pc) (tg t : dist) : Prop := match c with Drain _ | Done _ => True | _ => deq tg t end.
 
 Definition conv_oerr (e : option derr) : option err_V2Prio := option_map conv_derr e.
 
@@ -131,31 +135,32 @@ Definition live (c : pc) (g : G) : Prop :=
 
 (* the simulation relation *)
 Definition R (s : st) (c : cfgT) : Prop :=
-  exists g unc usf ins, c = cfg_of s g unc usf ins /\ live (pcs s) g /\ ins_rel s ins.
+  exists g tg unc usf ins, c = cfg_of s g tg unc usf ins /\ live (pcs s) g /\ ins_rel s ins /\
+                           NoDup (keys tg) /\ trel (pcs s) tg (tactic s).
 
 Ltac istep := eapply r_step; [cbn; reflexivity|].
 Ltac fin := apply r_refl.
 Ltac mkR g unc usf ins := exists g, unc, usf, ins; split; [reflexivity|split; [cbn; try tauto|try assumption]].
 
 (* ---- WaitFb: the blocking point is the receive in getOneFeedback *)
-Lemma blocked_waitfb s g unc usf ins : pcs s = WaitFb ->
-  step1 prog (cfg_of s g unc usf ins) = Block (RqRecv CFeedback).
+Lemma blocked_waitfb s g tg unc usf ins : pcs s = WaitFb ->
+  step1 prog (cfg_of s g tg unc usf ins) = Block (RqRecv CFeedback).
 Proof. intros E. unfold cfg_of. rewrite E. reflexivity. Qed.
 
 Lemma sim_waitfb s c p q :
   Inv s -> H s < two64 -> R s c -> pcs s = WaitFb -> fbq s = p :: q ->
   exists c', reaches prog (resume c (AnsRecv (Some (PN p)))) c' /\ R (pop_fb s p q Calc) c'.
 Proof.
-  intros I HH (g & unc & usf & ins & -> & L & IR) Epc Efb. destruct (inv_fb_bounds s p q I HH Efb) as [B1 B2].
+  intros I HH (g & tg & unc & usf & ins & -> & L & IR & NDg & TR) Epc Efb. destruct (inv_fb_bounds s p q I HH Efb) as [B1 B2].
   unfold cfg_of. rewrite Epc in *. cbn [stack resume].
   eexists. split.
-  - cbn. istep. rewrite (tie_decreaseActual dv _ s unc usf ins p q Calc B1 B2). do 3 istep. fin.
-  - eexists _, unc, usf, ins. split; [reflexivity|]. split; [exact L|exact IR].
+  - cbn. istep. rewrite (tie_decreaseActual dv _ (sg s tg) unc usf ins p q Calc B1 B2). do 3 istep. fin.
+  - eexists _, tg, unc, usf, ins. split; [reflexivity|]. split; [exact L|split; [exact IR|split; [exact NDg|exact TR]]].
 Qed.
 
 (* ---- Send: the blocking point is the send on the output channel in send() *)
-Lemma blocked_send s g unc usf ins ph p x r proc : pcs s = Prio2.Send ph p x r proc -> live (pcs s) g ->
-  step1 prog (cfg_of s g unc usf ins) = Block (RqSend COutput (PPrioritized (mk_Prioritized x p))).
+Lemma blocked_send s g tg unc usf ins ph p x r proc : pcs s = Prio2.Send ph p x r proc -> live (pcs s) g ->
+  step1 prog (cfg_of s g tg unc usf ins) = Block (RqSend COutput (PPrioritized (mk_Prioritized x p))).
 Proof.
   intros E L. unfold cfg_of. rewrite E in *. cbn in L. destruct L as (_ & _ & _ & _ & _ & Hp & _).
   cbn. unfold send_prioritized. cbn. now rewrite Hp.
@@ -165,26 +170,30 @@ Lemma sim_send s c ph p x r proc :
   Inv s -> H s < two64 -> R s c -> pcs s = Prio2.Send ph p x r proc -> proc + 1 < u_modulus ->
   exists c', reaches prog (resume c AnsOk) c' /\ R (push_out s p x (Read ph p r (proc + 1) false)) c'.
 Proof.
-  intros I HH (g & unc & usf & ins & -> & L & IR) Epc Hb.
+  intros I HH (g & tg & unc & usf & ins & -> & L & IR & NDg & TR) Epc Hb.
   destruct (inv_send_bounds s ph p x r proc I HH Epc) as (B1 & B2 & B3).
+  assert (TRp : get tg p = get (tactic s) p) by (rewrite Epc in TR; apply TR).
+  rewrite <- TRp in B1, B2.
+  assert (ND' : NoDup (keys (dec tg p))) by (apply nodup_keys_set; exact NDg).
+  assert (TR' : deq (dec tg p) (dec (tactic s) p)) by (apply deq_dec; rewrite Epc in TR; exact TR).
   unfold cfg_of. rewrite Epc in *. cbn in L. destruct L as (L1 & L2 & L3 & L4 & L5 & L6 & L7).
   cbn [stack resume sendK].
   destruct (buf p) eqn:Eb.
   - destruct L7 as [L7 L8]. eexists. split.
-    + istep. cbn. rewrite L4. rewrite (tie_decreaseTactic dv _ s unc usf ins p B1 B2).
+    + istep. cbn. rewrite L4. rewrite (tie_decreaseTactic dv _ (sg s tg) unc usf ins p B1 B2).
       istep. cbn. rewrite L4.
-      rewrite (tie_increaseActual dv _ (with_tac s (dec (tactic s) p) (pcs s)) unc usf ins p B3).
+      rewrite (tie_increaseActual dv _ (sg s (dec tg p)) unc usf ins p B3).
       do 6 istep. fin.
-    + eexists _, unc, usf, ins.
-      split; [unfold cfg_of; cbn [pcs push_out stack]; unfold readK; rewrite Eb; reflexivity|]. split; [|exact IR].
+    + eexists _, (dec tg p), unc, usf, ins.
+      split; [unfold cfg_of; cbn [pcs push_out stack]; unfold readK; rewrite Eb; reflexivity|]. split; [|split; [exact IR|split; [exact ND'|exact TR']]].
       cbn. rewrite Eb. rewrite u_add_small by lia. repeat split; try assumption; lia.
   - destruct L7 as (L7 & L8 & L9). eexists. split.
-    + istep. cbn. rewrite L4. rewrite (tie_decreaseTactic dv _ s unc usf ins p B1 B2).
+    + istep. cbn. rewrite L4. rewrite (tie_decreaseTactic dv _ (sg s tg) unc usf ins p B1 B2).
       istep. cbn. rewrite L4.
-      rewrite (tie_increaseActual dv _ (with_tac s (dec (tactic s) p) (pcs s)) unc usf ins p B3).
+      rewrite (tie_increaseActual dv _ (sg s (dec tg p)) unc usf ins p B3).
       do 6 istep. fin.
-    + eexists _, unc, usf, ins.
-      split; [unfold cfg_of; cbn [pcs push_out stack]; unfold readK; rewrite Eb; reflexivity|]. split; [|exact IR].
+    + eexists _, (dec tg p), unc, usf, ins.
+      split; [unfold cfg_of; cbn [pcs push_out stack]; unfold readK; rewrite Eb; reflexivity|]. split; [|split; [exact IR|split; [exact ND'|exact TR']]].
       cbn. rewrite Eb. rewrite u_add_small by lia. repeat split; try assumption; lia.
 Qed.
 
@@ -203,49 +212,49 @@ Lemma sim_prio_nil_p1 s c proc :
   R s c -> pcs s = Prio P1 [] proc ->
   exists c', reaches prog c c' /\ R (with_pc s (Recalc proc)) c'.
 Proof.
-  intros (g & unc & usf & ins & -> & L & IR) Epc. unfold cfg_of. rewrite Epc in *. cbn in L. destruct L as (L1 & L2 & L3).
+  intros (g & tg & unc & usf & ins & -> & L & IR & NDg & TR) Epc. unfold cfg_of. rewrite Epc in *. cbn in L. destruct L as (L1 & L2 & L3).
   eexists (_, stack buf (Recalc proc)). split.
   - cbn [stack prioLoopK]. runto ltac:(rewrite ?L1).
-  - eexists _, unc, usf, ins. split; [reflexivity|]. split; [|exact IR]. cbn. split; assumption.
+  - eexists _, tg, unc, usf, ins. split; [reflexivity|]. split; [|split; [exact IR|split; [exact NDg|exact TR]]]. cbn. split; assumption.
 Qed.
 
 Lemma sim_prio_nil_p2 s c proc :
   R s c -> pcs s = Prio P2 [] proc ->
   exists c', reaches prog c c' /\ R (with_pc s (EndBase proc)) c'.
 Proof.
-  intros (g & unc & usf & ins & -> & L & IR) Epc. unfold cfg_of. rewrite Epc in *. cbn in L. destruct L as (L1 & L2 & L3).
+  intros (g & tg & unc & usf & ins & -> & L & IR & NDg & TR) Epc. unfold cfg_of. rewrite Epc in *. cbn in L. destruct L as (L1 & L2 & L3).
   eexists (_, stack buf (EndBase proc)). split.
   - cbn [stack prioLoopK]. runto ltac:(rewrite ?L1).
-  - eexists _, unc, usf, ins. split; [reflexivity|]. split; [|exact IR]. cbn. rewrite u_add_small by lia. split; [assumption|reflexivity].
+  - eexists _, tg, unc, usf, ins. split; [reflexivity|]. split; [|split; [exact IR|split; [exact NDg|exact TR]]]. cbn. rewrite u_add_small by lia. split; [assumption|reflexivity].
 Qed.
 
 Lemma sim_prio_drained s c ph p r proc :
   R s c -> pcs s = Prio ph (p :: r) proc -> In p (prios s) -> drained s p = true ->
   exists c', reaches prog c c' /\ R (with_pc s (Prio ph r proc)) c'.
 Proof.
-  intros (g & unc & usf & ins & -> & L & IR) Epc Hp Hd. unfold cfg_of. rewrite Epc in *. cbn in L. destruct L as (L1 & L2 & L3).
+  intros (g & tg & unc & usf & ins & -> & L & IR & NDg & TR) Epc Hp Hd. unfold cfg_of. rewrite Epc in *. cbn in L. destruct L as (L1 & L2 & L3).
   eexists (_, stack buf (Prio ph r proc)). split.
   - cbn [stack prioLoopK]. step ltac:(rewrite ?L1).
     runto ltac:(rewrite ?L1; cbn; rewrite ?(drained_ins s ins p IR Hp), ?Hd).
-  - eexists _, unc, usf, ins. split; [reflexivity|]. split; [|exact IR]. cbn. rewrite ?L1. cbn. repeat split; assumption.
+  - eexists _, tg, unc, usf, ins. split; [reflexivity|]. split; [|split; [exact IR|split; [exact NDg|exact TR]]]. cbn. rewrite ?L1. cbn. repeat split; assumption.
 Qed.
 
 Lemma sim_prio_read s c ph p r proc :
   R s c -> pcs s = Prio ph (p :: r) proc -> In p (prios s) -> drained s p = false ->
   exists c', reaches prog c c' /\ R (with_pc s (Read ph p r proc false)) c'.
 Proof.
-  intros (g & unc & usf & ins & -> & L & IR) Epc Hp Hd. unfold cfg_of. rewrite Epc in *. cbn in L. destruct L as (L1 & L2 & L3).
+  intros (g & tg & unc & usf & ins & -> & L & IR & NDg & TR) Epc Hp Hd. unfold cfg_of. rewrite Epc in *. cbn in L. destruct L as (L1 & L2 & L3).
   destruct (buf p) eqn:Eb.
   - eexists (_, stack buf (Read ph p r proc false)). split.
     + unfold stack, readK. rewrite Eb.
       runto ltac:(rewrite ?L1; cbn; rewrite ?(drained_ins s ins p IR Hp), ?Hd, ?Eb).
-    + eexists _, unc, usf, ins. split; [reflexivity|].
-      split; [|exact IR]. cbn. rewrite ?L1. cbn. rewrite Eb. repeat split; try assumption; lia.
+    + eexists _, tg, unc, usf, ins. split; [reflexivity|].
+      split; [|split; [exact IR|split; [exact NDg|exact TR]]]. cbn. rewrite ?L1. cbn. rewrite Eb. repeat split; try assumption; lia.
   - eexists (_, stack buf (Read ph p r proc false)). split.
     + unfold stack, readK. rewrite Eb.
       runto ltac:(rewrite ?L1; cbn; rewrite ?(drained_ins s ins p IR Hp), ?Hd, ?Eb).
-    + eexists _, unc, usf, ins. split; [reflexivity|].
-      split; [|exact IR]. cbn. rewrite ?L1. cbn. rewrite Eb. repeat split; try assumption; lia.
+    + eexists _, tg, unc, usf, ins. split; [reflexivity|].
+      split; [|split; [exact IR|split; [exact NDg|exact TR]]]. cbn. rewrite ?L1. cbn. rewrite Eb. repeat split; try assumption; lia.
 Qed.
 
 (* ---- Read: the head of the loop of io() (buffered input) resp. iou() (unbuffered input) *)
@@ -253,15 +262,16 @@ Lemma sim_read_zero s c ph p r proc intr :
   R s c -> pcs s = Read ph p r proc intr -> get (tactic s) p = 0 ->
   exists c', reaches prog c c' /\ R (with_pc s (Prio ph r proc)) c'.
 Proof.
-  intros (g & unc & usf & ins & -> & L & IR) Epc Ht. unfold cfg_of. rewrite Epc in *. cbn in L.
+  intros (g & tg & unc & usf & ins & -> & L & IR & NDg & TR) Epc Ht. unfold cfg_of. rewrite Epc in *. cbn in L.
+  assert (Ht' : get tg p = 0) by (rewrite (TR p); exact Ht).
   destruct L as (L1 & L2 & L3 & L4). destruct (buf p) eqn:Eb.
   - destruct L4 as (L4 & L5). eexists (_, stack buf (Prio ph r proc)). split.
-    + unfold stack, readK. rewrite Eb. runto ltac:(rewrite ?L4, ?aget_get, ?Ht).
-    + eexists _, unc, usf, ins. split; [reflexivity|]. split; [|exact IR]. cbn.
+    + unfold stack, readK. rewrite Eb. runto ltac:(rewrite ?L4, ?aget_get, ?Ht').
+    + eexists _, tg, unc, usf, ins. split; [reflexivity|]. split; [|split; [exact IR|split; [exact NDg|exact TR]]]. cbn.
       rewrite u_add_small by lia. repeat split; try assumption; lia.
   - destruct L4 as (L4 & L5 & L6). eexists (_, stack buf (Prio ph r proc)). split.
-    + unfold stack, readK. rewrite Eb. runto ltac:(rewrite ?L4, ?aget_get, ?Ht).
-    + eexists _, unc, usf, ins. split; [reflexivity|]. split; [|exact IR]. cbn.
+    + unfold stack, readK. rewrite Eb. runto ltac:(rewrite ?L4, ?aget_get, ?Ht').
+    + eexists _, tg, unc, usf, ins. split; [reflexivity|]. split; [|split; [exact IR|split; [exact NDg|exact TR]]]. cbn.
       rewrite u_add_small by lia. repeat split; try assumption; lia.
 Qed.
 
@@ -272,13 +282,13 @@ Definition read_request (p : N) : request payload chan_id :=
 Definition selK (ph : phase) (p : N) : list frameT :=
   if buf p then KSeq (wbody ioW) :: ioLoopK buf ph else KSeq (wbody iouW) :: iouLoopK buf ph.
 
-Lemma blocked_read s g unc usf ins ph p r proc intr :
-  pcs s = Read ph p r proc intr -> live (pcs s) g -> get (tactic s) p <> 0 ->
-  reaches prog (cfg_of s g unc usf ins) ((conc dv s unc usf ins, g, ncalls s), selK ph p) /\
-  step1 prog ((conc dv s unc usf ins, g, ncalls s), selK ph p) = Block (read_request p).
+Lemma blocked_read s g tg unc usf ins ph p r proc intr :
+  pcs s = Read ph p r proc intr -> live (pcs s) g -> trel (pcs s) tg (tactic s) -> get (tactic s) p <> 0 ->
+  reaches prog (cfg_of s g tg unc usf ins) ((conc dv (sg s tg) unc usf ins, g, ncalls s), selK ph p) /\
+  step1 prog ((conc dv (sg s tg) unc usf ins, g, ncalls s), selK ph p) = Block (read_request p).
 Proof.
-  intros Epc L Ht. unfold cfg_of. rewrite Epc in *. cbn in L. destruct L as (L1 & L2 & L3 & L4).
-  apply N.eqb_neq in Ht. unfold selK, read_request, stack, readK. destruct (buf p) eqn:Eb.
+  intros Epc L TR Ht. unfold cfg_of. rewrite Epc in *. cbn in L. destruct L as (L1 & L2 & L3 & L4).
+  rewrite <- (TR p) in Ht. apply N.eqb_neq in Ht. unfold selK, read_request, stack, readK. destruct (buf p) eqn:Eb.
   - destruct L4 as (L4 & L5). split.
     + step ltac:(rewrite ?L4, ?aget_get, ?Ht). apply r_refl.
     + cbn. now rewrite L4.
@@ -288,78 +298,78 @@ Proof.
 Qed.
 
 (* an item arrives: on to the send *)
-Lemma sim_read_item s g unc usf ins ph p r proc intr x q :
-  pcs s = Read ph p r proc intr -> live (pcs s) g -> ins_rel s ins -> inq s p = x :: q ->
-  exists c', reaches prog (resume ((conc dv s unc usf ins, g, ncalls s), selK ph p) (AnsSel 0 (Some (PN x)))) c' /\
+Lemma sim_read_item s g tg unc usf ins ph p r proc intr x q :
+  pcs s = Read ph p r proc intr -> live (pcs s) g -> ins_rel s ins -> NoDup (keys tg) -> trel (pcs s) tg (tactic s) -> inq s p = x :: q ->
+  exists c', reaches prog (resume ((conc dv (sg s tg) unc usf ins, g, ncalls s), selK ph p) (AnsSel 0 (Some (PN x)))) c' /\
              R (pop_in s p q (Prio2.Send ph p x r proc)) c'.
 Proof.
-  intros Epc L IR Hq. rewrite Epc in *. cbn in L. destruct L as (L1 & L2 & L3 & L4). unfold selK.
+  intros Epc L IR NDg TR Hq. rewrite Epc in *. cbn in L. destruct L as (L1 & L2 & L3 & L4). unfold selK.
   destruct (buf p) eqn:Eb.
   - destruct L4 as (L4 & L5). eexists (_, stack buf (Prio2.Send ph p x r proc)). split.
     + unfold stack, sendK. rewrite Eb. cbn [resume wbody ioW at_ nth body_io nth_error]. runto ltac:(rewrite ?L4).
-    + eexists _, unc, usf, ins. split; [reflexivity|]. split; [|exact IR]. cbn. rewrite ?L4, Eb.
+    + eexists _, tg, unc, usf, ins. split; [reflexivity|]. split; [|split; [exact IR|split; [exact NDg|exact TR]]]. cbn. rewrite ?L4, Eb.
       repeat split; try assumption; lia.
   - destruct L4 as (L4 & L5 & L6). eexists (_, stack buf (Prio2.Send ph p x r proc)). split.
     + unfold stack, sendK. rewrite Eb. cbn [resume wbody iouW at_ nth body_iou nth_error]. runto ltac:(rewrite ?L4).
-    + eexists _, unc, usf, ins. split; [reflexivity|]. split; [|exact IR]. cbn. rewrite ?L4, Eb.
+    + eexists _, tg, unc, usf, ins. split; [reflexivity|]. split; [|split; [exact IR|split; [exact NDg|exact TR]]]. cbn. rewrite ?L4, Eb.
       repeat split; try assumption; lia.
 Qed.
 
 (* the input is closed and empty: mark it drained, back to prioritize *)
-Lemma sim_read_closed s g unc usf ins ph p r proc intr :
-  pcs s = Read ph p r proc intr -> live (pcs s) g -> ins_rel s ins -> In p (prios s) ->
-  exists c', reaches prog (resume ((conc dv s unc usf ins, g, ncalls s), selK ph p) (AnsSel 0 None)) c' /\
+Lemma sim_read_closed s g tg unc usf ins ph p r proc intr :
+  pcs s = Read ph p r proc intr -> live (pcs s) g -> ins_rel s ins -> NoDup (keys tg) -> trel (pcs s) tg (tactic s) -> In p (prios s) ->
+  exists c', reaches prog (resume ((conc dv (sg s tg) unc usf ins, g, ncalls s), selK ph p) (AnsSel 0 None)) c' /\
              R (mark_drained s p (Prio ph r proc)) c'.
 Proof.
-  intros Epc L IR Hp. rewrite Epc in *. cbn in L. destruct L as (L1 & L2 & L3 & L4). unfold selK.
-  destruct (tie_markInputAsDrained dv (ncalls s) s unc usf ins p (Prio ph r proc) IR Hp) as (ins' & Em & IR').
+  intros Epc L IR NDg TR Hp. rewrite Epc in *. cbn in L. destruct L as (L1 & L2 & L3 & L4). unfold selK.
+  destruct (tie_markInputAsDrained dv (ncalls s) (sg s tg) unc usf ins p (Prio ph r proc) IR Hp) as (ins' & Em & IR').
   destruct (buf p) eqn:Eb.
   - destruct L4 as (L4 & L5). eexists (_, stack buf (Prio ph r proc)). split.
     + unfold stack. cbn [resume wbody ioW at_ nth body_io nth_error]. runto ltac:(rewrite ?L4, ?Em).
-    + eexists _, unc, usf, ins'. split; [reflexivity|]. split; [|exact IR']. cbn.
+    + eexists _, tg, unc, usf, ins'. split; [reflexivity|]. split; [|split; [exact IR'|split; [exact NDg|exact TR]]]. cbn.
       rewrite u_add_small by lia. repeat split; try assumption; lia.
   - destruct L4 as (L4 & L5 & L6). eexists (_, stack buf (Prio ph r proc)). split.
     + unfold stack. cbn [resume wbody iouW at_ nth body_iou nth_error]. runto ltac:(rewrite ?L4, ?Em).
-    + eexists _, unc, usf, ins'. split; [reflexivity|]. split; [|exact IR']. cbn.
+    + eexists _, tg, unc, usf, ins'. split; [reflexivity|]. split; [|split; [exact IR'|split; [exact NDg|exact TR]]]. cbn.
       rewrite u_add_small by lia. repeat split; try assumption; lia.
 Qed.
 
 (* buffered input, nothing there: the default branch of io() *)
-Lemma sim_read_default s g unc usf ins ph p r proc intr :
-  pcs s = Read ph p r proc intr -> live (pcs s) g -> ins_rel s ins -> buf p = true ->
-  exists c', reaches prog (resume ((conc dv s unc usf ins, g, ncalls s), selK ph p) AnsDefault) c' /\
+Lemma sim_read_default s g tg unc usf ins ph p r proc intr :
+  pcs s = Read ph p r proc intr -> live (pcs s) g -> ins_rel s ins -> NoDup (keys tg) -> trel (pcs s) tg (tactic s) -> buf p = true ->
+  exists c', reaches prog (resume ((conc dv (sg s tg) unc usf ins, g, ncalls s), selK ph p) AnsDefault) c' /\
              R (with_pc s (Prio ph r proc)) c'.
 Proof.
-  intros Epc L IR Eb. rewrite Epc in *. cbn in L. destruct L as (L1 & L2 & L3 & L4). unfold selK. rewrite Eb in *.
+  intros Epc L IR NDg TR Eb. rewrite Epc in *. cbn in L. destruct L as (L1 & L2 & L3 & L4). unfold selK. rewrite Eb in *.
   destruct L4 as (L4 & L5). eexists (_, stack buf (Prio ph r proc)). split.
   - unfold stack. cbn [resume wbody ioW at_ nth body_io nth_error]. runto idtac.
-  - eexists _, unc, usf, ins. split; [reflexivity|]. split; [|exact IR]. cbn.
+  - eexists _, tg, unc, usf, ins. split; [reflexivity|]. split; [|split; [exact IR|split; [exact NDg|exact TR]]]. cbn.
     rewrite u_add_small by lia. repeat split; try assumption; lia.
 Qed.
 
 (* unbuffered input, a tick of the interrupter: the first one is remembered, the second one ends the wait *)
-Lemma sim_read_tick1 s g unc usf ins ph p r proc :
-  pcs s = Read ph p r proc false -> live (pcs s) g -> ins_rel s ins -> buf p = false ->
-  exists c', reaches prog (resume ((conc dv s unc usf ins, g, ncalls s), selK ph p) (AnsSel 1 None)) c' /\
+Lemma sim_read_tick1 s g tg unc usf ins ph p r proc :
+  pcs s = Read ph p r proc false -> live (pcs s) g -> ins_rel s ins -> NoDup (keys tg) -> trel (pcs s) tg (tactic s) -> buf p = false ->
+  exists c', reaches prog (resume ((conc dv (sg s tg) unc usf ins, g, ncalls s), selK ph p) (AnsSel 1 None)) c' /\
              R (with_pc s (Read ph p r proc true)) c'.
 Proof.
-  intros Epc L IR Eb. rewrite Epc in *. cbn in L. destruct L as (L1 & L2 & L3 & L4). unfold selK. rewrite Eb in *.
+  intros Epc L IR NDg TR Eb. rewrite Epc in *. cbn in L. destruct L as (L1 & L2 & L3 & L4). unfold selK. rewrite Eb in *.
   destruct L4 as (L4 & L5 & L6). eexists (_, stack buf (Read ph p r proc true)). split.
   - unfold stack, readK. rewrite Eb. cbn [resume wbody iouW at_ nth body_iou nth_error].
     step ltac:(rewrite ?L5). runto ltac:(rewrite ?L5).
-  - eexists _, unc, usf, ins. split; [reflexivity|]. split; [|exact IR]. cbn. rewrite Eb.
+  - eexists _, tg, unc, usf, ins. split; [reflexivity|]. split; [|split; [exact IR|split; [exact NDg|exact TR]]]. cbn. rewrite Eb.
     repeat split; try assumption; lia.
 Qed.
 
-Lemma sim_read_tick2 s g unc usf ins ph p r proc :
-  pcs s = Read ph p r proc true -> live (pcs s) g -> ins_rel s ins -> buf p = false ->
-  exists c', reaches prog (resume ((conc dv s unc usf ins, g, ncalls s), selK ph p) (AnsSel 1 None)) c' /\
+Lemma sim_read_tick2 s g tg unc usf ins ph p r proc :
+  pcs s = Read ph p r proc true -> live (pcs s) g -> ins_rel s ins -> NoDup (keys tg) -> trel (pcs s) tg (tactic s) -> buf p = false ->
+  exists c', reaches prog (resume ((conc dv (sg s tg) unc usf ins, g, ncalls s), selK ph p) (AnsSel 1 None)) c' /\
              R (with_pc s (Prio ph r proc)) c'.
 Proof.
-  intros Epc L IR Eb. rewrite Epc in *. cbn in L. destruct L as (L1 & L2 & L3 & L4). unfold selK. rewrite Eb in *.
+  intros Epc L IR NDg TR Eb. rewrite Epc in *. cbn in L. destruct L as (L1 & L2 & L3 & L4). unfold selK. rewrite Eb in *.
   destruct L4 as (L4 & L5 & L6). eexists (_, stack buf (Prio ph r proc)). split.
   - unfold stack. cbn [resume wbody iouW at_ nth body_iou nth_error]. runto ltac:(rewrite ?L5).
-  - eexists _, unc, usf, ins. split; [reflexivity|]. split; [|exact IR]. cbn.
+  - eexists _, tg, unc, usf, ins. split; [reflexivity|]. split; [|split; [exact IR|split; [exact NDg|exact TR]]]. cbn.
     rewrite u_add_small by lia. repeat split; try assumption; lia.
 Qed.
 
@@ -368,30 +378,30 @@ Lemma sim_endbase_more s c proc :
   R s c -> pcs s = EndBase proc -> proc <> 0 -> N.of_nat (fblimit s) < u_modulus ->
   exists c', reaches prog c c' /\ R (with_pc s (LimFb (fblimit s))) c'.
 Proof.
-  intros (g & unc & usf & ins & -> & L & IR) Epc Hp Hl. unfold cfg_of. rewrite Epc in *. cbn in L. destruct L as (L1 & L2).
+  intros (g & tg & unc & usf & ins & -> & L & IR & NDg & TR) Epc Hp Hl. unfold cfg_of. rewrite Epc in *. cbn in L. destruct L as (L1 & L2).
   apply N.eqb_neq in Hp. eexists (_, stack buf (LimFb (fblimit s))). split.
   - unfold stack. runto ltac:(rewrite ?L1, ?L2, ?Hp).
-  - eexists _, unc, usf, ins. split; [reflexivity|]. split; [|exact IR]. cbn. split; [reflexivity|exact Hl].
+  - eexists _, tg, unc, usf, ins. split; [reflexivity|]. split; [|split; [exact IR|split; [exact NDg|exact TR]]]. cbn. split; [reflexivity|exact Hl].
 Qed.
 
 Lemma sim_endbase_drained s c :
   R s c -> pcs s = EndBase 0 -> forallb (drained s) (prios s) = true ->
   exists c', reaches prog c c' /\ R (with_pc s (Drain None)) c'.
 Proof.
-  intros (g & unc & usf & ins & -> & L & IR) Epc Hd. unfold cfg_of. rewrite Epc in *. cbn in L. destruct L as (L1 & L2).
+  intros (g & tg & unc & usf & ins & -> & L & IR & NDg & TR) Epc Hd. unfold cfg_of. rewrite Epc in *. cbn in L. destruct L as (L1 & L2).
   eexists (_, stack buf (Drain None)). split.
-  - unfold stack. runto ltac:(rewrite ?L1, ?L2, ?(tie_isDrainedInputs dv _ s unc usf ins IR), ?Hd).
-  - eexists _, unc, usf, ins. split; [reflexivity|]. split; [|exact IR]. reflexivity.
+  - unfold stack. runto ltac:(rewrite ?L1, ?L2, ?(tie_isDrainedInputs dv _ (sg s tg) unc usf ins IR), ?Hd).
+  - eexists _, tg, unc, usf, ins. split; [reflexivity|]. split; [|split; [exact IR|split; [exact NDg|exact Logic.I]]]. reflexivity.
 Qed.
 
 Lemma sim_endbase_idle s c :
   R s c -> pcs s = EndBase 0 -> forallb (drained s) (prios s) = false ->
   exists c', reaches prog c c' /\ R (with_pc s Idle) c' /\ step1 prog c' = Block (RqSleep 1%Z).
 Proof.
-  intros (g & unc & usf & ins & -> & L & IR) Epc Hd. unfold cfg_of. rewrite Epc in *. cbn in L. destruct L as (L1 & L2).
+  intros (g & tg & unc & usf & ins & -> & L & IR & NDg & TR) Epc Hd. unfold cfg_of. rewrite Epc in *. cbn in L. destruct L as (L1 & L2).
   eexists (_, stack buf Idle). split; [|split].
-  - unfold stack. runto ltac:(rewrite ?L1, ?L2, ?(tie_isDrainedInputs dv _ s unc usf ins IR), ?Hd).
-  - eexists _, unc, usf, ins. split; [reflexivity|]. split; [exact I|exact IR].
+  - unfold stack. runto ltac:(rewrite ?L1, ?L2, ?(tie_isDrainedInputs dv _ (sg s tg) unc usf ins IR), ?Hd).
+  - eexists _, tg, unc, usf, ins. split; [reflexivity|]. split; [exact I|split; [exact IR|split; [exact NDg|exact TR]]].
   - reflexivity.
 Qed.
 
@@ -400,10 +410,10 @@ Lemma sim_idle s c :
   R s c -> pcs s = Idle -> N.of_nat (fblimit s) < u_modulus ->
   exists c', reaches prog (resume c AnsOk) c' /\ R (with_pc s (LimFb (fblimit s))) c'.
 Proof.
-  intros (g & unc & usf & ins & -> & L & IR) Epc Hl. unfold cfg_of. rewrite Epc in *.
+  intros (g & tg & unc & usf & ins & -> & L & IR & NDg & TR) Epc Hl. unfold cfg_of. rewrite Epc in *.
   eexists (_, stack buf (LimFb (fblimit s))). split.
   - unfold stack. cbn [resume ifZero if_then loopW wbody at_ nth body_loop skipn]. runto idtac.
-  - eexists _, unc, usf, ins. split; [reflexivity|]. split; [|exact IR]. cbn. split; [reflexivity|exact Hl].
+  - eexists _, tg, unc, usf, ins. split; [reflexivity|]. split; [|split; [exact IR|split; [exact NDg|exact TR]]]. cbn. split; [reflexivity|exact Hl].
 Qed.
 
 (* ---- LimFb: the head of the loop of getLimitedFeedback() *)
@@ -411,19 +421,19 @@ Lemma sim_limfb_zero s c :
   R s c -> pcs s = LimFb 0 ->
   exists c', reaches prog c c' /\ R (with_pc s Calc) c'.
 Proof.
-  intros (g & unc & usf & ins & -> & L & IR) Epc. unfold cfg_of. rewrite Epc in *. cbn in L. destruct L as (L1 & L2).
+  intros (g & tg & unc & usf & ins & -> & L & IR & NDg & TR) Epc. unfold cfg_of. rewrite Epc in *. cbn in L. destruct L as (L1 & L2).
   rewrite N.add_0_r in L1.
   eexists (_, stack buf Calc). split.
   - unfold stack. runto ltac:(rewrite ?L1, ?N.ltb_irrefl).
-  - eexists _, unc, usf, ins. split; [reflexivity|]. split; [|exact IR]. reflexivity.
+  - eexists _, tg, unc, usf, ins. split; [reflexivity|]. split; [|split; [exact IR|split; [exact NDg|exact TR]]]. reflexivity.
 Qed.
 
 Definition glfSelK : list frameT := KSeq (skipn 1 (wbody glfW)) :: stack buf (LimFb 0).
 
-Lemma blocked_limfb s g unc usf ins k :
+Lemma blocked_limfb s g tg unc usf ins k :
   pcs s = LimFb (S k) -> live (pcs s) g ->
-  exists g', reaches prog (cfg_of s g unc usf ins) ((conc dv s unc usf ins, g', ncalls s), glfSelK) /\
-             step1 prog ((conc dv s unc usf ins, g', ncalls s), glfSelK) = Block (RqSelect [(CFeedback, None)] true) /\
+  exists g', reaches prog (cfg_of s g tg unc usf ins) ((conc dv (sg s tg) unc usf ins, g', ncalls s), glfSelK) /\
+             step1 prog ((conc dv (sg s tg) unc usf ins, g', ncalls s), glfSelK) = Block (RqSelect [(CFeedback, None)] true) /\
              live (LimFb k) g'.
 Proof.
   intros Epc L. unfold cfg_of. rewrite Epc in *. cbn in L. destruct L as (L1 & L2).
@@ -434,70 +444,59 @@ Proof.
   - cbn. rewrite u_add_small by lia. split; [lia|exact L2].
 Qed.
 
-Lemma sim_limfb_recv s g unc usf ins k p q :
-  Inv s -> H s < two64 -> pcs s = LimFb (S k) -> live (LimFb k) g -> ins_rel s ins -> fbq s = p :: q ->
-  exists c', reaches prog (resume ((conc dv s unc usf ins, g, ncalls s), glfSelK) (AnsSel 0 (Some (PN p)))) c' /\
+Lemma sim_limfb_recv s g tg unc usf ins k p q :
+  Inv s -> H s < two64 -> pcs s = LimFb (S k) -> live (LimFb k) g -> ins_rel s ins -> NoDup (keys tg) -> deq tg (tactic s) ->
+  fbq s = p :: q ->
+  exists c', reaches prog (resume ((conc dv (sg s tg) unc usf ins, g, ncalls s), glfSelK) (AnsSel 0 (Some (PN p)))) c' /\
              R (pop_fb s p q (LimFb k)) c'.
 Proof.
-  intros I HH Epc L IR Efb. destruct (inv_fb_bounds s p q I HH Efb) as [B1 B2].
+  intros I HH Epc L IR NDg TR Efb. destruct (inv_fb_bounds s p q I HH Efb) as [B1 B2].
   eexists (_, stack buf (LimFb k)). split.
   - unfold glfSelK, stack. cbn [resume glfW wbody at_ nth body_getLimitedFeedback skipn nth_error].
-    step idtac. runto ltac:(rewrite ?(tie_decreaseActual dv _ s unc usf ins p q (LimFb k) B1 B2)).
-  - eexists _, unc, usf, ins. split; [reflexivity|]. split; [exact L|exact IR].
+    step idtac. runto ltac:(rewrite ?(tie_decreaseActual dv _ (sg s tg) unc usf ins p q (LimFb k) B1 B2)).
+  - eexists _, tg, unc, usf, ins. split; [reflexivity|]. split; [exact L|split; [exact IR|split; [exact NDg|exact TR]]].
 Qed.
 
-Lemma sim_limfb_default s g unc usf ins k :
-  pcs s = LimFb (S k) -> ins_rel s ins ->
-  exists c', reaches prog (resume ((conc dv s unc usf ins, g, ncalls s), glfSelK) AnsDefault) c' /\ R (with_pc s Calc) c'.
+Lemma sim_limfb_default s g tg unc usf ins k :
+  pcs s = LimFb (S k) -> ins_rel s ins -> NoDup (keys tg) -> deq tg (tactic s) ->
+  exists c', reaches prog (resume ((conc dv (sg s tg) unc usf ins, g, ncalls s), glfSelK) AnsDefault) c' /\ R (with_pc s Calc) c'.
 Proof.
-  intros Epc IR.
+  intros Epc IR NDg TR.
   eexists (_, stack buf Calc). split.
   - unfold glfSelK, stack. cbn [resume glfW wbody at_ nth body_getLimitedFeedback skipn nth_error]. runto idtac.
-  - eexists _, unc, usf, ins. split; [reflexivity|]. split; [|exact IR]. reflexivity.
+  - eexists _, tg, unc, usf, ins. split; [reflexivity|]. split; [|split; [exact IR|split; [exact NDg|exact TR]]]. reflexivity.
 Qed.
 
-(* ---- Drain: the head of the loop of the deferred waitZeroActual().  After a divider error dsc.tactic holds what the
-   divider left while the model has reset it (GenTiePrio2Calc): from here on only dsc.actual matters, so the relation
-   leaves the tactic open (tg). *)
-Definition RD (s : st) (c : cfgT) : Prop :=
-  exists g tg unc usf ins,
-    c = ((conc dv (with_tac s tg (pcs s)) unc usf ins, g, ncalls s), stack buf (pcs s)) /\ live (pcs s) g.
-
-Lemma R_RD s c : R s c -> RD s c.
-Proof.
-  intros (g & unc & usf & ins & -> & L & _). exists g, (tactic s), unc, usf, ins. split; [|exact L].
-  unfold cfg_of. now rewrite with_tac_self.
-Qed.
-
+(* ---- Drain: the head of the loop of the deferred waitZeroActual() *)
 Definition wzRecvK (e : option derr) : list frameT := KSeq (skipn 2 (wbody wzW)) :: stack buf (Drain e).
 
 (* actual is not all zero: the blocking point is the receive of a feedback *)
 Lemma blocked_drain s c e :
-  RD s c -> pcs s = Drain e -> sum (actual s) <> 0 ->
+  R s c -> pcs s = Drain e -> sum (actual s) <> 0 ->
   exists v, reaches prog c (v, wzRecvK e) /\ step1 prog (v, wzRecvK e) = Block (RqRecv CFeedback) /\
-            RD s (v, stack buf (pcs s)).
+            R s (v, stack buf (pcs s)).
 Proof.
-  intros (g & tg & unc & usf & ins & -> & L) Epc Hs. rewrite Epc in *. apply N.eqb_neq in Hs.
+  intros (g & tg & unc & usf & ins & -> & L & IR & NDg & TR) Epc Hs. unfold cfg_of. rewrite Epc in *. apply N.eqb_neq in Hs.
   eexists. split; [|split].
   - unfold stack, wzRecvK. step idtac.
-    step ltac:(rewrite ?(tie_isZeroActual dv _ (with_tac s tg (Drain e)) unc usf ins); cbn; rewrite ?Hs).
-    step ltac:(rewrite ?(tie_isZeroActual dv _ (with_tac s tg (Drain e)) unc usf ins); cbn; rewrite ?Hs).
+    step ltac:(rewrite ?(tie_isZeroActual dv _ (sg s tg) unc usf ins); cbn; rewrite ?Hs).
+    step ltac:(rewrite ?(tie_isZeroActual dv _ (sg s tg) unc usf ins); cbn; rewrite ?Hs).
     step idtac. apply r_refl.
   - reflexivity.
-  - unfold RD. rewrite Epc. eexists _, tg, unc, usf, ins. split; [reflexivity|exact L].
+  - unfold R, cfg_of. rewrite Epc. eexists _, tg, unc, usf, ins. split; [reflexivity|]. split; [exact L|split; [exact IR|split; [exact NDg|exact TR]]].
 Qed.
 
 Lemma sim_drain_recv s v e p q :
-  Inv s -> H s < two64 -> RD s (v, stack buf (pcs s)) -> pcs s = Drain e -> fbq s = p :: q ->
-  exists c', reaches prog (resume (v, wzRecvK e) (AnsRecv (Some (PN p)))) c' /\ RD (pop_fb s p q (Drain e)) c'.
+  Inv s -> H s < two64 -> R s (v, stack buf (pcs s)) -> pcs s = Drain e -> fbq s = p :: q ->
+  exists c', reaches prog (resume (v, wzRecvK e) (AnsRecv (Some (PN p)))) c' /\ R (pop_fb s p q (Drain e)) c'.
 Proof.
-  intros I HH (g & tg & unc & usf & ins & E & L) Epc Efb. rewrite Epc in *. injection E as ->.
+  intros I HH (g & tg & unc & usf & ins & E & L & IR & NDg & TR) Epc Efb. unfold cfg_of in E. rewrite Epc in *. injection E as ->.
   destruct (inv_fb_bounds s p q I HH Efb) as [B1 B2].
   eexists (_, stack buf (Drain e)). split.
   - unfold stack, wzRecvK. cbn [resume wzW wbody at_ nth body_waitZeroActual skipn].
-    step ltac:(rewrite ?(tie_decreaseActual dv _ (with_tac s tg (Drain e)) unc usf ins p q (Drain e) B1 B2)).
+    step ltac:(rewrite ?(tie_decreaseActual dv _ (sg s tg) unc usf ins p q (Drain e) B1 B2)).
     runto idtac.
-  - eexists _, tg, unc, usf, ins. split; [reflexivity|exact L].
+  - eexists _, tg, unc, usf, ins. split; [reflexivity|]. split; [exact L|split; [exact IR|split; [exact NDg|exact Logic.I]]].
 Qed.
 
 (* actual is all zero: the goroutine ends.  The requests that follow: the error (if any) is sent on err, then the deferred
@@ -512,25 +511,31 @@ Fixpoint trace (fuel : nat) (c : cfgT) (n : nat) : list (request payload chan_id
            end
   end.
 
-Lemma sim_drain_end s c e :
-  RD s c -> pcs s = Drain e -> sum (actual s) = 0 ->
-  trace 100 c 6 =
+Definition end_trace (e : option derr) : list (request payload chan_id) :=
   match e with
   | Some x => [RqSend CErr (PErr (Some (conv_derr x))); RqTickerStop; RqClose CFeedback; RqClose COutput; RqClose CErr; RqDone]
   | None => [RqTickerStop; RqClose CFeedback; RqClose COutput; RqClose CErr; RqDone; RqDone]
   end.
+
+Lemma sim_drain_end s c e :
+  R s c -> pcs s = Drain e -> sum (actual s) = 0 -> trace 100 c 6 = end_trace e.
 Proof.
-  intros (g & tg & unc & usf & ins & -> & L) Epc Hs. rewrite Epc in *. cbn in L. apply N.eqb_eq in Hs.
+  intros (g & tg & unc & usf & ins & -> & L & IR & NDg & TR) Epc Hs. unfold cfg_of. rewrite Epc in *. cbn in L. apply N.eqb_eq in Hs.
   destruct e as [x|]; cbn in L.
-  - unfold trace, stack. cbn [run_to_request].
-    cbn. rewrite (tie_isZeroActual dv _ (with_tac s tg (Drain (Some x))) unc usf ins). cbn. rewrite Hs. cbn.
+  - unfold trace, stack, end_trace. cbn [run_to_request].
+    cbn. rewrite (tie_isZeroActual dv _ (sg s tg) unc usf ins). cbn. rewrite Hs. cbn.
     rewrite L. reflexivity.
-  - unfold trace, stack. cbn [run_to_request].
-    cbn. rewrite (tie_isZeroActual dv _ (with_tac s tg (Drain None)) unc usf ins). cbn. rewrite Hs. cbn.
+  - unfold trace, stack, end_trace. cbn [run_to_request].
+    cbn. rewrite (tie_isZeroActual dv _ (sg s tg) unc usf ins). cbn. rewrite Hs. cbn.
     rewrite L. reflexivity.
 Qed.
 
-(* ---- Calc: the head of the loop of waitCalcTactic(); the case without a divider error *)
+(* ---- Calc: the head of the loop of waitCalcTactic(), all three exits (the third one: a divider error, through the
+   returns of waitCalcTactic / base / loop into the deferred waitZeroActual) *)
+Section Dividers.
+Hypothesis dv_wf : forall k ps n d, NoDup (keys d) -> NoDup (keys (dv k ps n d)).
+Hypothesis dv_ext : forall k ps n d d', NoDup (keys d) -> NoDup (keys d') -> deq d d' -> deq (dv k ps n d) (dv k ps n d').
+
 Lemma step_calc_shape s :
   let s' := step_calc dv s in
   prios s' = prios s /\ drained s' = drained s /\
@@ -544,29 +549,36 @@ Proof.
   - destruct (safe_divide _ _ _ _); cbn; [|repeat split; eauto]. destruct (filled _ _); auto.
 Qed.
 
-Lemma sim_calc_ok s c :
-  R s c -> pcs s = Calc ->
-  NoDup (keys (tactic s)) -> NoDup (prios s) -> sum (actual s) <= H s -> H s < two64 -> sum (strategic s) < two64 ->
-  (incl (prios s) (keys (tactic s)) \/ ncalls (step_calc dv s) = ncalls s) ->
-  (forall e, pcs (step_calc dv s) <> Drain (Some e)) ->
+Lemma sim_calc s c :
+  R s c -> pcs s = Calc -> Inv s -> H s < two64 -> sum (strategic s) < two64 ->
   exists c', reaches prog c c' /\ R (step_calc dv s) c'.
 Proof.
-  intros (g & unc & usf & ins & -> & L & IR) Epc Hndt Hndp Hcap HH Hstr Hcov Hok.
-  pose proof (tie_calcTactic_ok dv s unc usf ins Hndt Hndp Hcap HH Hstr Hcov Hok) as T. cbn zeta in T.
+  intros (g & tg & unc & usf & ins & -> & L & IR & NDg & TR) Epc I HH Hstr.
+  assert (TRd : deq tg (tactic s)) by (rewrite Epc in TR; exact TR).
+  destruct (tie_calcTactic_sim dv s tg unc usf ins dv_wf dv_ext NDg TRd (i_ndt s I) (i_ndp s I) (i_cap s I) HH Hstr)
+    as (tg' & T & NDg' & Hd'). cbn zeta in T.
   destruct (step_calc_shape s) as (Hp & Hdr & Hpc).
   assert (IR' : ins_rel (step_calc dv s) ins) by (unfold ins_rel in *; rewrite Hp, Hdr; exact IR).
-  unfold cfg_of. rewrite Epc in *. cbn in L.
-  destruct Hpc as [E|[E|[e E]]]; [| |now destruct (Hok e)].
+  unfold cfg_of, sg. rewrite Epc in *. cbn in L.
+  destruct Hpc as [E|[E|[e E]]].
   - eexists (_, stack buf WaitFb). split.
     + unfold stack. step idtac. runto ltac:(rewrite ?T, ?E; cbn).
-    + eexists _, _, usf, ins. split; [unfold cfg_of; rewrite E; reflexivity|]. rewrite E. split; [exact L|exact IR'].
+    + eexists _, tg', _, usf, ins. split; [unfold cfg_of, sg; rewrite E; reflexivity|]. rewrite E.
+      split; [exact L|split; [exact IR'|split; [exact NDg'|]]].
+      apply Hd'. intros e0. rewrite E. discriminate.
   - eexists (_, stack buf (Prio P1 (prios s) 0)). split.
     + unfold stack. step idtac. runto ltac:(rewrite ?T, ?E; cbn; rewrite ?L).
-    + eexists _, _, usf, ins. split; [unfold cfg_of; rewrite E; reflexivity|]. rewrite E. split; [|exact IR'].
-      cbn. rewrite ?L, ?Hp. repeat split; reflexivity.
+    + eexists _, tg', _, usf, ins. split; [unfold cfg_of, sg; rewrite E; reflexivity|]. rewrite E.
+      split; [|split; [exact IR'|split; [exact NDg'|]]].
+      * cbn. rewrite ?L, ?Hp. repeat split; reflexivity.
+      * apply Hd'. intros e0. rewrite E. discriminate.
+  - eexists (_, stack buf (Drain (Some e))). split.
+    + unfold stack. step idtac. runto ltac:(rewrite ?T, ?E; cbn; rewrite ?L).
+    + eexists _, tg', _, usf, ins. split; [unfold cfg_of, sg; rewrite E; reflexivity|]. rewrite E.
+      split; [reflexivity|split; [exact IR'|split; [exact NDg'|exact Logic.I]]].
 Qed.
 
-(* ---- Recalc: base() after the first prioritize(); the case without a divider error *)
+(* ---- Recalc: base() after the first prioritize(), all three exits *)
 Lemma step_recalc_shape s proc :
   let s' := step_recalc dv s proc in
   prios s' = prios s /\ drained s' = drained s /\
@@ -577,39 +589,373 @@ Proof.
   destruct (safe_divide _ _ _ _); cbn; [|repeat split; eauto]. destruct (filled _ _); auto.
 Qed.
 
-Lemma sim_recalc_ok s c proc :
-  R s c -> pcs s = Recalc proc ->
-  (forall k ps n d, NoDup (keys d) -> NoDup (keys (dv k ps n d))) ->
-  NoDup (keys (tactic s)) -> sum (tactic s) < two64 ->
-  (forall e, pcs (step_recalc dv s proc) <> Drain (Some e)) ->
+Lemma sim_recalc s c proc :
+  R s c -> pcs s = Recalc proc -> Inv s -> H s < two64 ->
   exists c', reaches prog c c' /\ R (step_recalc dv s proc) c'.
 Proof.
-  intros (g & unc & usf & ins & -> & L & IR) Epc Hwf Hndt Hsum Hok.
-  pose proof (tie_recalcTactic_ok dv s proc unc usf ins Hwf Hndt Hsum Hok) as T. cbn zeta in T.
+  intros (g & tg & unc & usf & ins & -> & L & IR & NDg & TR) Epc I HH.
+  assert (TRd : deq tg (tactic s)) by (rewrite Epc in TR; exact TR).
+  assert (Hsum : sum (tactic s) < two64).
+  { pose proof (i_round s I) as Hr. rewrite Epc in Hr. specialize (Hr eq_refl). lia. }
+  destruct (tie_recalcTactic_sim dv s tg proc unc usf ins dv_wf dv_ext NDg TRd (i_ndt s I) Hsum) as (tg' & T & NDg' & Hd').
+  cbn zeta in T.
   destruct (step_recalc_shape s proc) as (Hp & Hdr & Hpc).
   assert (IR' : ins_rel (step_recalc dv s proc) ins) by (unfold ins_rel in *; rewrite Hp, Hdr; exact IR).
-  unfold cfg_of. rewrite Epc in *. cbn in L. destruct L as (L1 & L2).
-  destruct Hpc as [E|[E|[e E]]]; [| |now destruct (Hok e)].
+  unfold cfg_of, sg. rewrite Epc in *. cbn in L. destruct L as (L1 & L2).
+  destruct Hpc as [E|[E|[e E]]].
   - eexists (_, stack buf (Prio P2 (prios s) proc)). split.
     + unfold stack. runto ltac:(rewrite ?T, ?E; cbn).
-    + eexists _, unc, _, ins. split; [unfold cfg_of; rewrite E; reflexivity|]. rewrite E. split; [|exact IR'].
-      cbn. rewrite ?Hp, u_add_small by lia. repeat split; try lia; reflexivity.
+    + eexists _, tg', unc, _, ins. split; [unfold cfg_of, sg; rewrite E; reflexivity|]. rewrite E.
+      split; [|split; [exact IR'|split; [exact NDg'|]]].
+      * cbn. rewrite ?Hp, u_add_small by lia. repeat split; try lia; reflexivity.
+      * apply Hd'. intros e0. rewrite E. discriminate.
   - eexists (_, stack buf (EndBase proc)). split.
     + unfold stack. runto ltac:(rewrite ?T, ?E; cbn).
-    + eexists _, unc, _, ins. split; [unfold cfg_of; rewrite E; reflexivity|]. rewrite E. split; [|exact IR'].
-      cbn. rewrite u_add_small by lia. split; [lia|reflexivity].
+    + eexists _, tg', unc, _, ins. split; [unfold cfg_of, sg; rewrite E; reflexivity|]. rewrite E.
+      split; [|split; [exact IR'|split; [exact NDg'|]]].
+      * cbn. rewrite u_add_small by lia. split; [lia|reflexivity].
+      * apply Hd'. intros e0. rewrite E. discriminate.
+  - eexists (_, stack buf (Drain (Some e))). split.
+    + unfold stack. runto ltac:(rewrite ?T, ?E; cbn).
+    + eexists _, tg', unc, _, ins. split; [unfold cfg_of, sg; rewrite E; reflexivity|]. rewrite E.
+      split; [reflexivity|split; [exact IR'|split; [exact NDg'|exact Logic.I]]].
 Qed.
+
+(* ---- Drain e with actual all zero -> Done e, as moves of the program: [send the error;] stop the ticker, close feedback,
+   output, err (each request answered AnsOk); afterwards the program is done *)
+Ltac runblock tac := first [eapply r_step; [cbn; try tac; reflexivity|]; runblock tac | apply r_refl].
+
+(* the program goes from c to c': internal steps, and for every answer in the list a request that gets this answer *)
+Fixpoint moves (l : list (answer payload)) (c c' : cfgT) : Prop :=
+  match l with
+  | [] => reaches prog c c'
+  | a :: r => exists cb rq, reaches prog c cb /\ step1 prog cb = Block rq /\ moves r (resume cb a) c'
+  end.
+
+Lemma sim_drain_done s c e :
+  R s c -> pcs s = Drain e -> sum (actual s) = 0 ->
+  exists c', moves (match e with Some _ => [AnsOk; AnsOk; AnsOk; AnsOk; AnsOk] | None => [AnsOk; AnsOk; AnsOk; AnsOk] end) c c' /\
+             R (with_pc s (Done e)) c' /\ step1 prog c' = Block RqDone.
+Proof.
+  intros (g & tg & unc & usf & ins & -> & L & IR & NDg & TR) Epc Hs. unfold cfg_of. rewrite Epc in *. cbn in L. apply N.eqb_eq in Hs.
+  pose proof (tie_isZeroActual dv (ncalls s) (sg s tg) unc usf ins) as Z.
+  destruct e as [x|]; cbn in L.
+  - eexists (_, []). split; [|split].
+    + unfold moves, stack.
+      eexists _, _. split; [runblock ltac:(rewrite ?Z; cbn; rewrite ?Hs, ?L)|]. split; [reflexivity|].
+      eexists _, _. split; [cbn [resume]; runblock idtac|]. split; [reflexivity|].
+      eexists _, _. split; [cbn [resume]; runblock idtac|]. split; [reflexivity|].
+      eexists _, _. split; [cbn [resume]; runblock idtac|]. split; [reflexivity|].
+      eexists _, _. split; [cbn [resume]; runblock idtac|]. split; [reflexivity|].
+      cbn [resume]. runblock idtac.
+    + eexists _, tg, unc, usf, ins. split; [reflexivity|].
+      split; [exact Logic.I|split; [exact IR|split; [exact NDg|exact Logic.I]]].
+    + reflexivity.
+  - eexists (_, []). split; [|split].
+    + unfold moves, stack.
+      eexists _, _. split; [runblock ltac:(rewrite ?Z; cbn; rewrite ?Hs, ?L)|]. split; [reflexivity|].
+      eexists _, _. split; [cbn [resume]; runblock idtac|]. split; [reflexivity|].
+      eexists _, _. split; [cbn [resume]; runblock idtac|]. split; [reflexivity|].
+      eexists _, _. split; [cbn [resume]; runblock idtac|]. split; [reflexivity|].
+      cbn [resume]. runblock idtac.
+    + eexists _, tg, unc, usf, ins. split; [reflexivity|].
+      split; [exact Logic.I|split; [exact IR|split; [exact NDg|exact Logic.I]]].
+    + reflexivity.
+Qed.
+
+(* ---- the composition: every step of Prio2.sched_step is a move of the generated program *)
+
+(* the answers of the environment that the model step at pc (pcs s) stands for *)
+Definition answers (s : st) : list (answer payload) :=
+  match pcs s with
+  | WaitFb => match fbq s with p :: _ => [AnsRecv (Some (PN p))] | [] => [] end
+  | Read _ p _ _ _ =>
+      if get (tactic s) p =? 0 then [] else
+      match inq s p with
+      | x :: _ => [AnsSel 0 (Some (PN x))]
+      | [] => if closed s p then [AnsSel 0 None] else if buffered s p then [AnsDefault] else []
+      end
+  | Prio2.Send _ _ _ _ _ => [AnsOk]
+  | LimFb (S _) => match fbq s with p :: _ => [AnsSel 0 (Some (PN p))] | [] => [AnsDefault] end
+  | Drain e =>
+      if sum (actual s) =? 0
+      then match e with Some _ => [AnsOk; AnsOk; AnsOk; AnsOk; AnsOk] | None => [AnsOk; AnsOk; AnsOk; AnsOk] end
+      else match fbq s with p :: _ => [AnsRecv (Some (PN p))] | [] => [] end
+  | _ => []
+  end.
+
+(* what is assumed about the model state (all of it holds in the reachable states, see conc_simulates_reachable) *)
+Record Hyp (s : st) : Prop := {
+  h_inv : Inv s;
+  h_inv2 : Inv2 s;
+  h_H : H s < two64;
+  h_str : sum (strategic s) < two64;
+  h_lim : N.of_nat (fblimit s) < u_modulus;
+  h_buf : forall p, buffered s p = buf p;                (* the capacities the program was given *)
+  h_proc : forall ph p x r proc, pcs s = Prio2.Send ph p x r proc -> proc + 1 < u_modulus }.   (* Go's counter is 64-bit *)
+
+Theorem conc_simulates_sched_step s s' c :
+  Hyp s -> R s c -> sched_step dv s = Some s' ->
+  exists c', moves (answers s) c c' /\ R s' c'.
+Proof.
+  intros [I I2 HH Hstr Hlim Hbuf Hproc] HR Hstep.
+  pose proof (j_rest s I2) as Hrest.
+  unfold sched_step in Hstep. unfold answers. destruct (pcs s) eqn:Epc.
+  - (* Calc *) injection Hstep as <-. apply (sim_calc s c HR Epc I HH Hstr).
+  - (* WaitFb *) destruct (fbq s) as [|p q] eqn:Efb; [discriminate|]. injection Hstep as <-.
+    destruct (sim_waitfb s c p q I HH HR Epc Efb) as (c' & Hr & HR').
+    destruct HR as (g & tg & unc & usf & ins & -> & _).
+    exists c'. split; [|exact HR']. cbn. eexists _, _. split; [apply r_refl|]. split; [exact (blocked_waitfb s g tg unc usf ins Epc)|exact Hr].
+  - (* Prio *) destruct rest as [|p r].
+    + destruct ph; injection Hstep as <-; [apply (sim_prio_nil_p1 s c proc HR Epc)|apply (sim_prio_nil_p2 s c proc HR Epc)].
+    + assert (Hp : In p (prios s)) by (cbn in Hrest; apply Hrest; now left).
+      destruct (drained s p) eqn:Ed; injection Hstep as <-;
+        [apply (sim_prio_drained s c ph p r proc HR Epc Hp Ed)|apply (sim_prio_read s c ph p r proc HR Epc Hp Ed)].
+  - (* Read *) destruct (get (tactic s) p =? 0) eqn:Et.
+    + injection Hstep as <-. apply N.eqb_eq in Et. apply (sim_read_zero s c ph p rest proc intr HR Epc Et).
+    + apply N.eqb_neq in Et. cbn in Hrest. destruct Hrest as [Hp _].
+      destruct HR as (g & tg & unc & usf & ins & -> & L & IR & NDg & TR).
+      destruct (blocked_read s g tg unc usf ins ph p rest proc intr Epc L TR Et) as [Hb1 Hb2].
+      destruct (inq s p) as [|x q] eqn:Eq.
+      * destruct (closed s p) eqn:Ec.
+        -- injection Hstep as <-.
+           destruct (sim_read_closed s g tg unc usf ins ph p rest proc intr Epc L IR NDg TR Hp) as (c' & Hr & HR').
+           exists c'. split; [|exact HR']. cbn. eexists _, _. split; [exact Hb1|]. split; [exact Hb2|exact Hr].
+        -- destruct (buffered s p) eqn:Ebf; [|discriminate]. injection Hstep as <-. rewrite Hbuf in Ebf.
+           destruct (sim_read_default s g tg unc usf ins ph p rest proc intr Epc L IR NDg TR Ebf) as (c' & Hr & HR').
+           exists c'. split; [|exact HR']. cbn. eexists _, _. split; [exact Hb1|]. split; [exact Hb2|exact Hr].
+      * injection Hstep as <-.
+        destruct (sim_read_item s g tg unc usf ins ph p rest proc intr x q Epc L IR NDg TR Eq) as (c' & Hr & HR').
+        exists c'. split; [|exact HR']. cbn. eexists _, _. split; [exact Hb1|]. split; [exact Hb2|exact Hr].
+  - (* Send *) destruct (N.of_nat (length (outq s)) <? outcap s); [|discriminate]. injection Hstep as <-.
+    destruct (sim_send s c ph p x rest proc I HH HR Epc (Hproc _ _ _ _ _ eq_refl)) as (c' & Hr & HR').
+    destruct HR as (g & tg & unc & usf & ins & -> & L & _).
+    exists c'. split; [|exact HR']. cbn. eexists _, _. split; [apply r_refl|]. split; [exact (blocked_send s g tg unc usf ins ph p x rest proc Epc L)|exact Hr].
+  - (* Recalc *) injection Hstep as <-. apply (sim_recalc s c proc HR Epc I HH).
+  - (* EndBase *) destruct (proc =? 0) eqn:Ep.
+    + apply N.eqb_eq in Ep. subst proc. destruct (forallb (drained s) (prios s)) eqn:Ed; injection Hstep as <-.
+      * apply (sim_endbase_drained s c HR Epc Ed).
+      * destruct (sim_endbase_idle s c HR Epc Ed) as (c' & Hr & HR' & _). exists c'. split; assumption.
+    + apply N.eqb_neq in Ep. injection Hstep as <-. apply (sim_endbase_more s c proc HR Epc Ep Hlim).
+  - (* Idle *) discriminate.
+  - (* LimFb *) destruct k as [|k].
+    + injection Hstep as <-. apply (sim_limfb_zero s c HR Epc).
+    + destruct HR as (g & tg & unc & usf & ins & -> & L & IR & NDg & TR).
+      assert (TRd : deq tg (tactic s)) by (rewrite Epc in TR; exact TR).
+      destruct (blocked_limfb s g tg unc usf ins k Epc L) as (g' & Hb1 & Hb2 & L').
+      destruct (fbq s) as [|p q] eqn:Efb; injection Hstep as <-.
+      * destruct (sim_limfb_default s g' tg unc usf ins k Epc IR NDg TRd) as (c' & Hr & HR').
+        exists c'. split; [|exact HR']. cbn. eexists _, _. split; [exact Hb1|]. split; [exact Hb2|exact Hr].
+      * destruct (sim_limfb_recv s g' tg unc usf ins k p q I HH Epc L' IR NDg TRd Efb) as (c' & Hr & HR').
+        exists c'. split; [|exact HR']. cbn. eexists _, _. split; [exact Hb1|]. split; [exact Hb2|exact Hr].
+  - (* Drain *) destruct (sum (actual s) =? 0) eqn:Es.
+    + injection Hstep as <-. apply N.eqb_eq in Es.
+      destruct (sim_drain_done s c e HR Epc Es) as (c' & Hm & HR' & _). exists c'. split; assumption.
+    + apply N.eqb_neq in Es. destruct (fbq s) as [|p q] eqn:Efb; [discriminate|]. injection Hstep as <-.
+      destruct (blocked_drain s c e HR Epc Es) as (v & Hb1 & Hb2 & HRv).
+      destruct (sim_drain_recv s v e p q I HH HRv Epc Efb) as (c' & Hr & HR').
+      exists c'. split; [|exact HR']. cbn. eexists _, _. split; [exact Hb1|]. split; [exact Hb2|exact Hr].
+  - (* Done *) discriminate.
+Qed.
+
+(* ---- blocking: the request a pc stands for, and when the model's channel state cannot answer it *)
+Definition pc_request (s : st) : option (request payload chan_id) :=
+  match pcs s with
+  | WaitFb => Some (RqRecv CFeedback)
+  | Read _ p _ _ _ => if get (tactic s) p =? 0 then None else Some (read_request p)
+  | Prio2.Send _ p x _ _ => Some (RqSend COutput (PPrioritized (mk_Prioritized x p)))
+  | Idle => Some (RqSleep 1%Z)
+  | LimFb (S _) => Some (RqSelect [(CFeedback, None)] true)
+  | Drain _ => if sum (actual s) =? 0 then None else Some (RqRecv CFeedback)
+  | Done _ => Some RqDone
+  | _ => None
+  end.
+
+Definition unanswerable (s : st) (rq : request payload chan_id) : Prop :=
+  match rq with
+  | RqRecv CFeedback => fbq s = []                                           (* nothing released *)
+  | RqSend COutput _ => (N.of_nat (length (outq s)) <? outcap s) = false     (* the output is full *)
+  | RqSelect [(CInput p, None); (CTick, None)] false =>                      (* unbuffered input: an item or a tick *)
+      inq s p = [] /\ closed s p = false
+  | RqSleep _ => True                                                        (* the clock *)
+  | RqDone => True                                                           (* the goroutine has ended *)
+  | _ => False
+  end.
+
+(* the program, from the point of the pc, arrives at exactly this request *)
+Theorem conc_request s c rq :
+  R s c -> pc_request s = Some rq -> exists cb, reaches prog c cb /\ step1 prog cb = Block rq.
+Proof.
+  intros HR Hrq. unfold pc_request in Hrq. destruct (pcs s) eqn:Epc; try discriminate.
+  - injection Hrq as <-. destruct HR as (g & tg & unc & usf & ins & -> & _).
+    eexists. split; [apply r_refl|exact (blocked_waitfb s g tg unc usf ins Epc)].
+  - destruct (get (tactic s) p =? 0) eqn:Et; [discriminate|]. injection Hrq as <-. apply N.eqb_neq in Et.
+    destruct HR as (g & tg & unc & usf & ins & -> & L & IR & NDg & TR).
+    destruct (blocked_read s g tg unc usf ins ph p rest proc intr Epc L TR Et) as [Hb1 Hb2]. eauto.
+  - injection Hrq as <-. destruct HR as (g & tg & unc & usf & ins & -> & L & _).
+    eexists. split; [apply r_refl|exact (blocked_send s g tg unc usf ins ph p x rest proc Epc L)].
+  - injection Hrq as <-. destruct HR as (g & tg & unc & usf & ins & -> & _).
+    eexists. split; [apply r_refl|]. unfold cfg_of. rewrite Epc. reflexivity.
+  - destruct k as [|k]; [discriminate|]. injection Hrq as <-.
+    destruct HR as (g & tg & unc & usf & ins & -> & L & _).
+    destruct (blocked_limfb s g tg unc usf ins k Epc L) as (g' & Hb1 & Hb2 & _). eauto.
+  - destruct (sum (actual s) =? 0) eqn:Es; [discriminate|]. injection Hrq as <-. apply N.eqb_neq in Es.
+    destruct (blocked_drain s c e HR Epc Es) as (v & Hb1 & Hb2 & _). eauto.
+  - injection Hrq as <-. destruct HR as (g & tg & unc & usf & ins & -> & _).
+    eexists. split; [apply r_refl|]. unfold cfg_of. rewrite Epc. reflexivity.
+Qed.
+
+(* the model is blocked exactly when its pc stands for a request that its channel state cannot answer *)
+Theorem model_blocked_iff s :
+  (forall p, buffered s p = buf p) ->
+  sched_step dv s = None <-> exists rq, pc_request s = Some rq /\ unanswerable s rq.
+Proof.
+  intros Hbuf. unfold sched_step, pc_request. destruct (pcs s) eqn:Epc.
+  - split; [discriminate|]. intros (rq & E & _). discriminate.
+  - destruct (fbq s) eqn:Efb; split; intros Hx; try discriminate; try reflexivity.
+    + exists (RqRecv CFeedback). split; [reflexivity|exact Efb].
+    + destruct Hx as (rq & E & U). injection E as <-. cbn in U. congruence.
+  - destruct rest; [destruct ph|destruct (drained s n)]; (split; [discriminate|]; intros (rq & E & _); discriminate).
+  - destruct (get (tactic s) p =? 0); [split; [discriminate|]; intros (rq & E & _); discriminate|].
+    unfold read_request. rewrite <- Hbuf.
+    destruct (inq s p) eqn:Eq; [destruct (closed s p) eqn:Ec; [|destruct (buffered s p) eqn:Eb]|]; split; intros Hx; try discriminate; try reflexivity.
+    + destruct Hx as (rq & E & U). injection E as <-. destruct (buffered s p); cbn in U; [destruct U|destruct U; congruence].
+    + destruct Hx as (rq & E & U). injection E as <-. destruct U.
+    + eexists. split; [reflexivity|]. cbn. auto.
+    + destruct Hx as (rq & E & U). injection E as <-. destruct (buffered s p); cbn in U; [destruct U|destruct U; congruence].
+  - destruct (N.of_nat (length (outq s)) <? outcap s) eqn:El; split; intros Hx; try discriminate; try reflexivity.
+    + destruct Hx as (rq & E & U). injection E as <-. cbn in U. congruence.
+    + eexists. split; [reflexivity|exact El].
+  - split; [discriminate|]. intros (rq & E & _). discriminate.
+  - destruct (proc =? 0); [destruct (forallb (drained s) (prios s))|]; (split; [discriminate|]; intros (rq & E & _); discriminate).
+  - split; [|reflexivity]. intros _. eexists. split; [reflexivity|exact Logic.I].
+  - destruct k; [split; [discriminate|]; intros (rq & E & _); discriminate|].
+    destruct (fbq s); split; try discriminate; intros (rq & E & U); injection E as <-; destruct U.
+  - destruct (sum (actual s) =? 0); [split; [discriminate|]; intros (rq & E & _); discriminate|].
+    destruct (fbq s) eqn:Efb; split; intros Hx; try discriminate; try reflexivity.
+    + eexists. split; [reflexivity|exact Efb].
+    + destruct Hx as (rq & E & U). injection E as <-. cbn in U. congruence.
+  - split; [|reflexivity]. intros _. eexists. split; [reflexivity|exact Logic.I].
+Qed.
+
+(* together: the model is blocked exactly when the program, from the point of the pc, is blocked on a request that the
+   model's channel state cannot answer *)
+Theorem conc_blocked_iff s c :
+  (forall p, buffered s p = buf p) -> R s c ->
+  sched_step dv s = None <->
+  exists cb rq, pc_request s = Some rq /\ reaches prog c cb /\ step1 prog cb = Block rq /\ unanswerable s rq.
+Proof.
+  intros Hbuf HR. rewrite (model_blocked_iff s Hbuf). split.
+  - intros (rq & E & U). destruct (conc_request s c rq HR E) as (cb & H1 & H2). eauto 8.
+  - intros (cb & rq & E & _ & _ & U). eauto.
+Qed.
+
+(* ---- the environment.  Put / Close / Take / Release change only what the channels can answer: the program state and
+   its point stay the same.  A Tick of the model is an answer: the sleep is over (Idle), resp. the ticker alternative of
+   the select of iou() is chosen (a Read that waits on an empty, open, unbuffered input). *)
+Theorem env_step_R s o s' c :
+  R s c -> env_step s o = Some s' -> o <> Tick -> R s' c.
+Proof.
+  intros (g & tg & unc & usf & ins & -> & L & IR & NDg & TR) Hs Ho.
+  destruct o; cbn in Hs; try congruence.
+  - destruct (closed s p); [discriminate|]. injection Hs as <-. exists g, tg, unc, usf, ins. repeat split; try assumption; apply IR.
+  - injection Hs as <-. exists g, tg, unc, usf, ins. repeat split; try assumption; apply IR.
+  - destruct (outq s); [discriminate|]. injection Hs as <-. exists g, tg, unc, usf, ins. repeat split; try assumption; apply IR.
+  - destruct (remove1 p (held s)); [|discriminate]. injection Hs as <-. exists g, tg, unc, usf, ins. repeat split; try assumption; apply IR.
+Qed.
+
+Definition tick_answers (s : st) : list (answer payload) :=
+  match pcs s with
+  | Idle => [AnsOk]
+  | Read _ p _ _ _ =>
+      if negb (get (tactic s) p =? 0) && negb (buffered s p) && negb (closed s p) && match inq s p with [] => true | _ => false end
+      then [AnsSel 1 None] else []
+  | _ => []
+  end.
+
+Theorem env_tick_R s s' c :
+  (forall p, buffered s p = buf p) -> N.of_nat (fblimit s) < u_modulus ->
+  R s c -> env_step s Tick = Some s' ->
+  exists c', moves (tick_answers s) c c' /\ R s' c'.
+Proof.
+  intros Hbuf Hlim HR Hs. cbn in Hs. unfold tick_answers. destruct (pcs s) eqn:Epc;
+    try (injection Hs as <-; exists c; split; [apply r_refl|exact HR]).
+  - (* Read *)
+    destruct (negb (get (tactic s) p =? 0) && negb (buffered s p) && negb (closed s p) && match inq s p with [] => true | _ => false end) eqn:Ec.
+    + apply andb_prop in Ec. destruct Ec as [Ec _]. apply andb_prop in Ec. destruct Ec as [Ec _].
+      apply andb_prop in Ec. destruct Ec as [Et Eb]. apply negb_true_iff in Et, Eb. apply N.eqb_neq in Et. rewrite Hbuf in Eb.
+      destruct HR as (g & tg & unc & usf & ins & -> & L & IR & NDg & TR).
+      destruct (blocked_read s g tg unc usf ins ph p rest proc intr Epc L TR Et) as [Hb1 Hb2].
+      destruct intr; injection Hs as <-.
+      * destruct (sim_read_tick2 s g tg unc usf ins ph p rest proc Epc L IR NDg TR Eb) as (c' & Hr & HR').
+        exists c'. split; [|exact HR']. cbn. eexists _, _. split; [exact Hb1|]. split; [exact Hb2|exact Hr].
+      * destruct (sim_read_tick1 s g tg unc usf ins ph p rest proc Epc L IR NDg TR Eb) as (c' & Hr & HR').
+        exists c'. split; [|exact HR']. cbn. eexists _, _. split; [exact Hb1|]. split; [exact Hb2|exact Hr].
+    + injection Hs as <-. exists c. split; [apply r_refl|exact HR].
+  - (* Idle *) injection Hs as <-.
+    destruct (sim_idle s c HR Epc Hlim) as (c' & Hr & HR').
+    destruct HR as (g & tg & unc & usf & ins & -> & _).
+    exists c'. split; [|exact HR']. cbn. eexists _, _. split; [apply r_refl|]. split; [|exact Hr].
+    unfold cfg_of. rewrite Epc. reflexivity.
+Qed.
+
+(* ---- the start: `go dsc.main()` on the value that New() has built runs (internal steps only: the four defers of main, the
+   call of loop, its defer, base, waitCalcTactic) to the point of the model's initial pc Calc *)
+Theorem conc_init s0 unc usf ins :
+  pcs s0 = Calc -> ins_rel s0 ins -> NoDup (keys (tactic s0)) ->
+  exists c', reaches prog (start prog (conc dv s0 unc usf ins, zero_G, ncalls s0) F_main) c' /\ R s0 c'.
+Proof.
+  intros Epc IR ND. eexists (_, stack buf Calc). split.
+  - unfold start, stack. runto idtac.
+  - eexists _, (tactic s0), unc, usf, ins. split; [unfold cfg_of, sg; rewrite with_tac_self, Epc; reflexivity|].
+    rewrite Epc. split; [reflexivity|split; [exact IR|split; [exact ND|apply deq_refl]]].
+Qed.
+
+(* for the state that Prio2.init_state builds (New: tactic and actual empty, nothing drained): the inputs map of New() *)
+Definition init_ins (ps : list N) : list (N * Input) := map (fun p => (p, mk_Input opaque_some false)) ps.
+Lemma init_ins_rel s0 : NoDup (prios s0) -> (forall p, drained s0 p = false) -> ins_rel s0 (init_ins (prios s0)).
+Proof.
+  intros ND Hd. unfold ins_rel, init_ins. rewrite map_map. cbn. rewrite map_id. repeat split; try assumption; try tauto.
+  intros p i Hin. apply in_map_iff in Hin. destruct Hin as (q & E & _). injection E as <- <-. cbn. now rewrite Hd.
+Qed.
+
+Corollary conc_init_state s0 :
+  Init s0 ->
+  exists c', reaches prog (start prog (conc dv s0 [] [] (init_ins (prios s0)), zero_G, ncalls s0) F_main) c' /\ R s0 c'.
+Proof.
+  intros I0. apply conc_init.
+  - apply (in_pc s0 I0).
+  - apply init_ins_rel; [apply (in_prios s0 I0)|apply (in_drained s0 I0)].
+  - rewrite (in_tactic s0 I0). constructor.
+Qed.
+
+(* ---- the simulation along the reachable states of the model: the invariants come from Prio2P *)
+Corollary conc_simulates_reachable s0 s s' c :
+  Init s0 -> reachable dv s0 s ->
+  H s < two64 -> sum (strategic s) < two64 -> N.of_nat (fblimit s) < u_modulus -> (forall p, buffered s p = buf p) ->
+  (forall ph p x r proc, pcs s = Prio2.Send ph p x r proc -> proc + 1 < u_modulus) ->
+  R s c -> sched_step dv s = Some s' ->
+  exists c', moves (answers s) c c' /\ R s' c'.
+Proof.
+  intros I0 Hr HH Hstr Hlim Hbuf Hproc. apply conc_simulates_sched_step.
+  constructor; try assumption; [exact (reachable_inv dv dv_wf s0 s I0 Hr)|first [exact (reachable_inv2 dv dv_wf s0 s I0 Hr) | exact (reachable_inv2 dv s0 s I0 Hr)]].
+Qed.
+End Dividers.
 End Sim.
 
-Print Assumptions sim_waitfb.
-Print Assumptions sim_send.
-Print Assumptions sim_prio_read.
-Print Assumptions sim_read_item.
-Print Assumptions sim_read_closed.
-Print Assumptions sim_read_tick2.
-Print Assumptions sim_endbase_drained.
-Print Assumptions sim_limfb_recv.
-Print Assumptions sim_drain_recv.
+(* ==== main tie theorems ==== *)
+(* conc_init / conc_init_state   : the goroutine at its start reaches the point of the model's initial pc (Calc)
+   conc_simulates_sched_step     : every step of Prio2.sched_step is a move of the generated program (internal steps, and
+                                   for a channel operation the request with the answer `answers s`), preserving R
+   conc_simulates_reachable      : the same along the reachable states (Inv, Inv2 from Prio2P)
+   conc_request, conc_blocked_iff: the request a pc stands for; the model is blocked iff the program is blocked on a
+                                   request that the model's channel state cannot answer
+   env_step_R, env_tick_R        : the environment steps *)
+Print Assumptions conc_init_state.
+Print Assumptions conc_simulates_sched_step.
+Print Assumptions conc_simulates_reachable.
+Print Assumptions conc_request.
+Print Assumptions conc_blocked_iff.
+Print Assumptions env_step_R.
+Print Assumptions env_tick_R.
 Print Assumptions sim_drain_end.
-Print Assumptions sim_calc_ok.
-Print Assumptions sim_recalc_ok.
